@@ -7,6 +7,9 @@
 #include <nstd/Socket/Server.hpp>
 #include <nstd/Socket/Socket.hpp>
 #include <fcntl.h>
+#include <poll.h>
+#include <netinet/in.h>
+#include <arpa/inet.h>
 #include <unistd.h>
 
 const char* pbt_property = "C13";
@@ -24,6 +27,7 @@ struct ClientCb : public Server::Client::ICallback {
   void onRead() override; void onWrite() override; void onClosed() override;
 };
 struct DriverCb : public Server::Timer::ICallback { H* h; void onActivated() override; };
+struct ListenerCb : public Server::Listener::ICallback { H* h; Server::Client::ICallback* onAccepted(Server::Client& client, uint32 ip, uint16 port) override; };
 
 struct CModel {
   Server::Client* cl = nullptr; Socket* peer = nullptr; int fd = -1, peerFd = -1;
@@ -35,16 +39,20 @@ struct CModel {
   long onReadWhileSuspended = 0;
   int readBudget = 0;            // bytes the next onRead callbacks may read (0 = leave it unread)
   long writeInCallback[2] = {0, 0};  // size of the write that the next onWrite / onRead callback performs itself
+  bool suspendInCallback[2] = {false, false};  // the next onWrite / onRead callback suspends the client
+  bool closedByServer = false;
 };
 
 struct H {
   Ctx* ctx; const Case* cs; Server* srvp; CModel c[NC]; ClientCb cb[NC]; DriverCb drv; Server::Timer* drvTimer = nullptr;
+  ListenerCb lcb; Server::Listener* listener = nullptr; long greet = 0; bool acceptedSeen = false;
+  int realWaits = 0;
   size_t nextOp = 0; std::vector<const Op*> ops; bool inRun = false; int quiet = 0; bool draining = false; long ticks = 0;
   long backlog(int i) { return (long)(c[i].accepted - srv::st().watched[c[i].fd].taken); }
   void fail(const char* kind, const std::string& d) { srv::st().active = false; ctx->fail(kind, d); }
 
   void checkBacklog(int i, const char* when) {
-    if (c[i].closed) return;
+    if (c[i].closed || !c[i].cl) return;
     long b = backlog(i); long rep = (long)c[i].cl->getSendBufferSize();
     if (b < 0) { char d[200]; snprintf(d, sizeof d, "%s: client %d handed %lld bytes to the system but only %lld were accepted (duplicated data)", when, i, srv::st().watched[c[i].fd].taken, c[i].accepted); fail("stream:duplicated", d); }
     if (rep != b) { char d[200]; snprintf(d, sizeof d, "%s: client %d getSendBufferSize() = %ld, accepted - handed to the system = %ld", when, i, rep, b); fail("backlog:size", d); }
@@ -66,7 +74,7 @@ struct H {
     for (long k = 0; k < len; ++k) data[(size_t)k] = pat(i, m.accepted + k);
     usize postponed = 12345; long before = backlog(i);
     bool ok = m.cl->write(data.data(), (usize)len, &postponed);
-    if (!ok) { m.closed = true; ctx->label("write_failed"); return; }
+    if (!ok) { m.closed = true; m.closedByServer = true; ctx->label("write_failed"); return; }
     m.accepted += len;
     long b = backlog(i);
     if ((long)postponed != b) { char d[200]; snprintf(d, sizeof d, "write(%ld) on client %d reported postponed = %ld, accepted - handed to the system = %ld", len, i, (long)postponed, b); fail("backlog:postponed", d); }
@@ -76,9 +84,10 @@ struct H {
   void doOp(const Op& op) {
     int i = (int)(((op.a[0] % NC) + NC) % NC); long n = op.a[1] < 0 ? -op.a[1] : op.a[1];
     const std::string& nm = op.name; CModel& m = c[i];
-    if (m.closed) { ctx->count("skipped"); return; }
+    if (m.closed || !m.cl) { ctx->count("skipped"); return; }   // (closed, or the connection that is still to be accepted)
     if (nm == "write") doWrite(i, 1 + n % 5000, "after write");
-    else if (nm == "wincb") { m.writeInCallback[op.a[2] & 1] = 1 + n % 5000; }   // the next onWrite (0) / onRead (1) callback of this client writes
+    else if (nm == "wincb") { m.writeInCallback[op.a[2] & 1] = 1 + n % 5000; }
+    else if (nm == "sincb") { m.suspendInCallback[op.a[2] & 1] = true; }   // the next onWrite (0) / onRead (1) callback of this client suspends it   // the next onWrite (0) / onRead (1) callback of this client writes
     else if (nm == "suspend") { m.cl->suspend(); m.suspended = true; if (!m.cl->isSuspended()) fail("suspend:flag", "isSuspended() is false after suspend()"); ctx->label("suspend"); }
     else if (nm == "resume") { m.cl->resume(); m.suspended = false; if (m.cl->isSuspended()) fail("suspend:flag", "isSuspended() is true after resume()"); }
     else if (nm == "peerread") { peerRead(i, 1 + n % 6000); if (backlog(i) > 0) ctx->label("peer_reads_with_backlog"); }
@@ -102,9 +111,14 @@ struct H {
       // drain mode: faults off, peers read everything; suspended clients stay suspended (their backlog must still drain),
       // they are only resumed once their output is complete so that the peer -> server direction can finish as well
       if (!draining) { draining = true; srv::st().faultsOn = false; }
-      for (int i = 0; i < NC; ++i) if (!c[i].closed && c[i].suspended && backlog(i) == 0 && c[i].peerGot == c[i].accepted) { c[i].cl->resume(); c[i].suspended = false; }
+      for (int i = 0; i < NC; ++i) if (!c[i].closed && c[i].cl && c[i].suspended && backlog(i) == 0 && c[i].peerGot == c[i].accepted) { c[i].cl->resume(); c[i].suspended = false; }
       bool allEmpty = true;
-      for (int i = 0; i < NC; ++i) if (!c[i].closed) { peerRead(i, 1 << 30); c[i].readBudget = 1 << 20; if (backlog(i) > 0 || c[i].peerGot < c[i].accepted || c[i].serverGot < c[i].toServer) allEmpty = false; }
+      // (TCP hands data over in real time: what the system has taken but the peer has not seen yet is waited for in real time)
+      // TCP moves data and acknowledgements in real time, the loop runs in virtual time: while something of the accepted connection
+      // is still under way (a backlog waiting for buffer space, i.e. for acknowledgements, or bytes the peer has not seen yet) each
+      // tick of the drain phase also waits a little in real time
+      for (int i = 0; i < NC; ++i) if (!c[i].closed && c[i].cl && !c[i].peer && (backlog(i) > 0 || c[i].peerGot < c[i].accepted) && realWaits < 700) { struct pollfd pf = {c[i].peerFd, POLLIN, 0}; poll(&pf, 1, 3); ++realWaits; ctx->count("tcp_real_time_wait"); }   // (at most about 2 s per case: far beyond any delayed acknowledgement, and a backlog that the loop has stopped sending must still end the case)
+      for (int i = 0; i < NC; ++i) if (!c[i].closed && c[i].cl) { peerRead(i, 1 << 30); c[i].readBudget = 1 << 20; if (backlog(i) > 0 || c[i].peerGot < c[i].accepted || c[i].serverGot < c[i].toServer) allEmpty = false; }
       quiet = allEmpty ? quiet + 1 : 0;
       if (quiet >= 3 || ticks > 6000) srvp->interrupt();
     }
@@ -121,6 +135,7 @@ void ClientCb::onRead() {
     h->ctx->label(h->backlog(id) > 0 ? "write_inside_onRead_creates_backlog" : "write_inside_onRead");
     if (m.closed) return;
   }
+  if (m.suspendInCallback[1]) { m.suspendInCallback[1] = false; m.cl->suspend(); m.suspended = true; h->ctx->label("suspend_inside_onRead"); return; }
   if (m.readBudget <= 0) {   // the callback does not read now: suspend to avoid a busy loop, the driver resumes later through its script
     m.cl->suspend(); m.suspended = true; return;
   }
@@ -142,8 +157,24 @@ void ClientCb::onWrite() {
     h->doWrite(id, len, "after write inside onWrite");
     h->ctx->label(h->backlog(id) > 0 ? "write_inside_onWrite_creates_backlog" : "write_inside_onWrite");
   }
+  if (m.suspendInCallback[0] && !m.closed) { m.suspendInCallback[0] = false; m.cl->suspend(); m.suspended = true; h->ctx->label("suspend_inside_onWrite"); }
 }
-void ClientCb::onClosed() { h->c[id].closed = true; h->ctx->label("onClosed"); }
+// nothing fails in these cases (no peer hangs up, send only ever reports would-block or partial counts): a client that the server
+// closes nevertheless is judged at the end like every other - all accepted bytes have to arrive
+void ClientCb::onClosed() { h->c[id].closed = true; h->c[id].closedByServer = true; h->ctx->label("onClosed"); }
+Server::Client::ICallback* ListenerCb::onAccepted(Server::Client& client, uint32, uint16) {
+  CModel& m = h->c[NC - 1];
+  if (m.cl) return nullptr;   // (only one connection is made)
+  m.cl = &client; m.fd = (int)client.getSocket().getFileDescriptor(); h->acceptedSeen = true;
+  { LedgerPause lp; srv::st().watched[m.fd] = srv::SendLog(); }
+  h->ctx->label("client_accepted_from_listener");
+  if (h->greet > 0) {   // the accept callback greets the new connection: the write goes through the same generated send outcomes
+    h->doWrite(NC - 1, h->greet, "after write inside onAccepted");
+    h->ctx->label(h->backlog(NC - 1) > 0 ? "write_inside_onAccepted_creates_backlog" : "write_inside_onAccepted");
+  }
+  if (h->cs->param("greetsuspend", 0)) { client.suspend(); m.suspended = true; h->ctx->label("suspend_inside_onAccepted"); }
+  return &h->cb[NC - 1];
+}
 }  // namespace
 
 void pbt_warmup() {}
@@ -151,6 +182,7 @@ void pbt_warmup() {}
 void pbt_generate(Rng& r, int size, Case& c) {
   int n = 3 + (int)r.below((uint64_t)size + 1);
   c.params["sndbuf"] = r.chance(30) ? (long)(2048 + r.below(8192)) : 0;
+  if (r.chance(12)) { c.params["tcp"] = 1; c.params["greet"] = r.chance(70) ? (long)(1 + r.below(5000)) : 0; c.params["greetsuspend"] = r.chance(15) ? 1 : 0; }   // the last client is accepted by a listener
   int shape = (int)r.below(5);   // fault script shapes
   int nf = (int)r.below((uint64_t)size * 2 + 4);
   for (int k = 0; k < nf; ++k) {
@@ -164,9 +196,9 @@ void pbt_generate(Rng& r, int size, Case& c) {
     }
     c.add("fault", kind, v);
   }
-  static const char* names[] = {"write", "suspend", "resume", "peerread", "peerdrain", "peerwrite", "query", "leave", "wincb"};
-  static const int w[] = {40, 6, 8, 16, 6, 8, 10, 4, 8};
-  for (int k = 0; k < n; ++k) { int o = r.weighted(w, 9); c.add(names[o], (long)r.below(NC), (long)r.below(100000), (long)r.below(1000)); }
+  static const char* names[] = {"write", "suspend", "resume", "peerread", "peerdrain", "peerwrite", "query", "leave", "wincb", "sincb"};
+  static const int w[] = {40, 6, 8, 16, 6, 8, 10, 4, 8, 4};
+  for (int k = 0; k < n; ++k) { int o = r.weighted(w, 10); c.add(names[o], (long)r.below(NC), (long)r.below(100000), (long)r.below(1000)); }
 }
 
 bool pbt_nontrivial(const Ctx& ctx) { return ctx.has("backlog_created") && ctx.has("write_while_backlog") && ctx.has("onWrite_after_drain"); }
@@ -184,8 +216,23 @@ void pbt_run(const Case& cs, Ctx& ctx) {
   srv::st().active = true;
   Server* server = new Server; h.srvp = server;
   long sndbuf = cs.param("sndbuf", 0); if (sndbuf > 0) server->setSendBufferSize((int)sndbuf);
+  bool tcp = cs.param("tcp", 0) != 0; h.greet = cs.param("greet", 0); if (h.greet < 0) h.greet = 0; if (h.greet > 5000) h.greet = 5000;
   for (int i = 0; i < NC; ++i) {
     h.cb[i].h = &h; h.cb[i].id = i;
+    if (tcp && i == NC - 1) {
+      // the last client comes in through a listener on a loopback port chosen by the system; if the port cannot be had (another
+      // worker took it in between) the case falls back to a paired client
+      int probe = socket(AF_INET, SOCK_STREAM, 0); sockaddr_in a; memset(&a, 0, sizeof a); a.sin_family = AF_INET; a.sin_addr.s_addr = htonl(INADDR_LOOPBACK); a.sin_port = 0;
+      bind(probe, (sockaddr*)&a, sizeof a); socklen_t al = sizeof a; getsockname(probe, (sockaddr*)&a, &al); int port = ntohs(a.sin_port); close(probe);
+      server->setNoDelay(true);   // small segments are not held back for an acknowledgement that takes real time to come (the loop runs in virtual time)
+      h.lcb.h = &h; h.listener = server->listen(Socket::loopbackAddress, (uint16)port, h.lcb);
+      int s = h.listener ? socket(AF_INET, SOCK_STREAM, 0) : -1;
+      if (s >= 0) { a.sin_port = htons((uint16_t)port); if (::connect(s, (sockaddr*)&a, sizeof a) != 0) { close(s); s = -1; } }
+      if (s >= 0) { h.c[i].peerFd = s; ctx.label("connection_to_listener"); continue; }
+      if (h.listener) { server->remove(*h.listener); h.listener = nullptr; }
+      server->setNoDelay(false);   // (not available on the local sockets of pair())
+      ctx.count("listen_or_connect_failed");
+    }
     h.c[i].peer = new Socket;
     h.c[i].cl = server->pair(h.cb[i], *h.c[i].peer);
     if (!h.c[i].cl) ctx.fail("harness", "Server::pair failed");
@@ -203,18 +250,24 @@ void pbt_run(const Case& cs, Ctx& ctx) {
     if (h.nextOp < h.ops.size()) h.doOp(*h.ops[h.nextOp++]);   // one action between two runs
   }
   srv::st().active = false;
+  if (ctx.verbose) for (int i = 0; i < NC; ++i) fprintf(stderr, "end: client %d cl=%p closed=%d accepted=%lld peerGot=%lld toServer=%lld serverGot=%lld suspended=%d ticks=%ld quiet=%d\n", i, (void*)h.c[i].cl, (int)h.c[i].closed, h.c[i].accepted, h.c[i].peerGot, h.c[i].toServer, h.c[i].serverGot, (int)h.c[i].suspended, h.ticks, h.quiet);
   ctx.opIndex = -2;
   for (int i = 0; i < NC; ++i) {
     CModel& m = h.c[i];
-    if (m.closed) continue;
+    if (!m.cl) { ctx.count("never_accepted"); continue; }
+    if (m.closed && !m.closedByServer) continue;
     h.peerRead(i, 1 << 30);
+    if (m.closedByServer && m.peerGot != m.accepted) { char d[240]; snprintf(d, sizeof d, "client %d was closed by the server although no operation failed; %lld bytes were accepted, the peer received %lld", i, m.accepted, m.peerGot); ctx.fail("stream:incomplete-closed", d); }
+    if (m.closedByServer) continue;
     if (m.peerGot != m.accepted) { char d[200]; snprintf(d, sizeof d, "client %d: %lld bytes were accepted but the peer received %lld after the loop went idle", i, m.accepted, m.peerGot); ctx.fail("stream:incomplete", d); }
     if (m.backlogWasPositive) { char d[160]; snprintf(d, sizeof d, "client %d: the backlog drained but no onWrite was delivered", i); ctx.fail("onWrite:missing", d); }
     srv::SendLog& lg = srv::st().watched[m.fd];
     if (lg.partial) ctx.label("partial_send"); if (lg.wouldBlock) ctx.label("would_block");
   }
-  
+  // the harness end of the TCP connection goes first and with a reset: no TIME_WAIT entry stays behind (thousands of cases per
+  // second would use up the local port range)
+  for (int i = 0; i < NC; ++i) if (!h.c[i].peer && h.c[i].peerFd >= 0) { struct linger lg = {1, 0}; setsockopt(h.c[i].peerFd, SOL_SOCKET, SO_LINGER, &lg, sizeof lg); close(h.c[i].peerFd); h.c[i].peerFd = -1; }
   delete server;
-  for (int i = 0; i < NC; ++i) delete h.c[i].peer;
+  for (int i = 0; i < NC; ++i) { if (h.c[i].peer) delete h.c[i].peer; else if (h.c[i].peerFd >= 0) close(h.c[i].peerFd); }
   { LedgerPause lp; srv::st().faults.clear(); srv::st().faults.shrink_to_fit(); srv::st().watched.clear(); h.ops.clear(); h.ops.shrink_to_fit(); }
 }
